@@ -649,6 +649,11 @@ func runConc(args []string) {
 	pubsubHandover(seed, ho, want, enc)
 	pubsubPrune(seed, ho, want, enc)
 	pubsubStall(seed, want, enc)
+	sa := rounds
+	if sa > 3 && os.Getenv("VERIF_TIER") != "thorough" {
+		sa = 3
+	}
+	storeAcc(seed, sa, want, enc)
 	bv := rounds
 	if bv > 3 && os.Getenv("VERIF_TIER") != "thorough" {
 		bv = 3
